@@ -501,3 +501,54 @@ func H_C13_uncomparable_groups() {
 	})
 	vReach("end")
 }
+
+// self-referential and mutually recursive struct types (lists, trees, parent/child): analysing the
+// type must terminate, whatever finite value is passed
+type vC13List struct {
+	V    string    `valid:"required"`
+	Next *vC13List `valid:"exist"`
+}
+
+type vC13Tree struct {
+	Kids []*vC13Tree         `valid:"exist"`
+	ByK  map[string]vC13Tree `valid:"exist"`
+	Up   **vC13Tree          `valid:"exist"`
+	Name string              `valid:"to=1~3"`
+}
+
+type vC13Parent struct {
+	Child *vC13Child `valid:"required"`
+	N     int        `valid:"ge=1"`
+}
+
+type vC13Child struct {
+	Back  *vC13Parent   `valid:"exist"`
+	Sibs  []vC13Child   `valid:"exist"`
+	Label string        `valid:"required"`
+	Arr   [1]*vC13Child `valid:"exist"`
+}
+
+func H_C13_recursive_types() {
+	s := vndString("s", 2)
+	switch vndChoice("shape", 6) {
+	case 0:
+		vC13Call("Struct(list of one)", func() { _ = Struct(&vC13List{V: s}) })
+	case 1:
+		vC13Call("Struct(list of three)", func() { _ = Struct(&vC13List{V: "a", Next: &vC13List{V: s, Next: &vC13List{}}}) })
+	case 2:
+		vC13Call("Struct(tree)", func() {
+			_ = Struct(&vC13Tree{Name: s, Kids: []*vC13Tree{nil, {Name: "abcd"}}, ByK: map[string]vC13Tree{"k": {Name: s}}})
+		})
+	case 3:
+		vC13Call("Struct(parent/child)", func() {
+			_ = Struct(&vC13Parent{N: 1, Child: &vC13Child{Label: s, Back: &vC13Parent{}, Sibs: []vC13Child{{}}}})
+		})
+	case 4:
+		vC13Call("Struct([]list)", func() { _ = Struct([]*vC13List{{V: s}, nil}) })
+	case 5:
+		vC13Call("Struct(list) with a rule set for the type", func() {
+			_ = Struct(&vC13List{V: s, Next: &vC13List{V: "x"}}, RM{"V": "required,le=1", "Next": "required"})
+		})
+	}
+	vReach("end")
+}
